@@ -166,6 +166,12 @@ func (c *ATConn) createNewTxOnExecIfNeed(ctx context.Context, f func() (types.Ex
 
 	if c.txCtx.TransactionMode != types.Local && tm.IsGlobalTx(ctx) && c.autoCommit {
 		tx, err = c.BeginTx(ctx, driver.TxOptions{Isolation: driver.IsolationLevel(gosql.LevelDefault)})
+		// the local transaction opened here lives for this one statement only: when the statement is
+		// over the connection is in autocommit mode again (BeginTx has switched the flag off), so that
+		// the next autocommit statement on the same connection gets its own local transaction
+		defer func() {
+			c.autoCommit = true
+		}()
 		if err != nil {
 			return nil, err
 		}
